@@ -77,13 +77,14 @@ Print Assumptions C19_dpda_checker_is_C02s.
    tm_sets_ok r = the constructor's rules about those sets (input symbols a proper subset of the tape symbols,
    blank a tape symbol, rows / read symbols / result states / written symbols / directions known, initial
    state known, with a row unless it is the only state, not final, final states known) - everything except
-   "no final state has a row", which is what valid_dtm / valid_ntm say.  MNTM: valid_mntm also demands at least
-   one alternative per entry, valid_tapes (C17) at least one tape - neither is checked by MNTM.validate - and
-   validate additionally checks one key component per tape (keys_len_ok), which neither predicate mentions. *)
+   "no final state has a row", which is what valid_dtm / valid_ntm / valid_mntm say.  MNTM: valid_tapes (C17)
+   demands at least one tape - not checked by MNTM.validate - and validate additionally checks one key
+   component per tape (keys_len_ok), which neither predicate mentions.  An entry with an empty list of
+   alternatives is accepted by both sides. *)
 Theorem C19_valid_tm_agrees : forall Q I T,
   (forall m, dtm_validate (raw_of_dtm Q I T m) = Ok tt <-> valid_dtm m = true /\ tm_sets_ok (raw_of_dtm Q I T m)) /\
   (forall m, ntm_validate (raw_of_ntm Q I T m) = Ok tt <-> valid_ntm m = true /\ tm_sets_ok (raw_of_ntm Q I T m)) /\
-  (forall m, (mntm_validate (mt_n m) (raw_of_mntm Q I T m) = Ok tt /\ alts_nonempty m = true /\ 1 <= mt_n m) <->
+  (forall m, (mntm_validate (mt_n m) (raw_of_mntm Q I T m) = Ok tt /\ 1 <= mt_n m) <->
              (valid_mntm m = true /\ valid_tapes m = true /\ keys_len_ok m = true /\ tm_sets_ok (raw_of_mntm Q I T m))).
 Proof.
   intros Q I T. split; [exact (valid_dtm_agrees Q I T)|]. split; [exact (valid_ntm_agrees Q I T)|exact (valid_mntm_agrees Q I T)].
